@@ -42,6 +42,8 @@ type refService struct {
 
 type refPolicy struct {
 	services []refService
+	// extraPorts: ports an ill-formed service could be mistaken for (e.g. an out-of-range port modulo 65536)
+	extraPorts []uint16
 	isolate  bool
 	friends  map[netip.Addr]bool
 }
@@ -108,7 +110,7 @@ func genConfig(r *rand.Rand, senders []netip.Addr, names []string) (config.Store
 		}
 		kind := r.IntN(7)
 		if r.IntN(12) == 0 {
-			kind = 7 + r.IntN(2)
+			kind = 7 + r.IntN(3)
 		}
 		switch kind {
 		case 0:
@@ -129,8 +131,15 @@ func genConfig(r *rand.Rand, senders []netip.Addr, names []string) (config.Store
 		case 7:
 			scheme, url = "tcp-noport", "tcp://host.myco" // port required: parser must reject
 			supported = false
-		default:
+		case 8:
 			scheme, url = "unsupported", []string{"sctp://:5", "ftp://x.myco:21", "quic://:443", "://"}[r.IntN(4)]
+			supported = false
+		default:
+			// port outside 1..65535: defines no service (and in particular none for the port modulo 65536)
+			raw := 65536*(1+r.IntN(3)) + int([]uint16{22, 53, 80, 443, explicit}[r.IntN(5)])
+			scheme = "port-out-of-range"
+			url = fmt.Sprintf([]string{"tcp://:%d", "udp://:%d", "http://web.myco:%d", "https://web.myco:%d/x", "tcp://host.myco:%d"}[r.IntN(5)], raw)
+			rp.extraPorts = append(rp.extraPorts, uint16(raw%65536))
 			supported = false
 		}
 		sc := config.ServiceConfig{Name: fmt.Sprintf("svc%d", i), URL: url}
@@ -220,6 +229,9 @@ func interestingPorts(rp *refPolicy, r *rand.Rand) []uint16 {
 		set[s.port+1] = true
 		set[s.port-1] = true
 	}
+	for _, p := range rp.extraPorts {
+		set[p] = true
+	}
 	set[uint16(r.IntN(65536))] = true
 	out := make([]uint16, 0, len(set))
 	for p := range set {
@@ -266,8 +278,23 @@ func runConfig(res *core.Result, pool *idPool, r *rand.Rand, full bool) {
 	}
 	if !supported {
 		if perr == nil {
-			// The statement gives no meaning to unsupported schemes / missing ports / duplicate protocol-ports: they must not open anything.
+			// The statement gives no meaning to unsupported schemes / missing or out-of-range ports / duplicate
+			// protocol-ports: whatever the parser makes of them, a packet may pass only if a well-formed service is
+			// defined for exactly its protocol and port and admits the sender.
 			res.Count("configs_with_unsupported_parts_accepted", 1)
+			for _, port := range interestingPorts(rp, r) {
+				for _, proto := range []uint8{6, 17, 58, 0, 1, 132} {
+					for _, sender := range []netip.Addr{senders[0], senders[1], senders[2], ids[4].IP} {
+						want, _ := rp.inbound(proto, port, sender)
+						if got := cfg.CheckInboundTrafficPolicy(proto, port, sender); got && !want {
+							res.Violate("ill-formed-service-opened-port", fmt.Sprintf("CheckInboundTrafficPolicy(proto %d, port %d, sender %s) admits although no well-formed service is defined for that protocol and port [%s]", proto, port, sender, cfgDesc),
+								map[string]any{"config": cfgDesc, "proto": proto, "port": port, "case_id": cfgDesc})
+							return
+						}
+					}
+				}
+			}
+			res.Case("ill-formed|"+cfgDesc, len(rp.extraPorts) > 0)
 		} else {
 			res.Count("configs_rejected_by_parser", 1)
 		}
@@ -375,10 +402,21 @@ func runConfig(res *core.Result, pool *idPool, r *rand.Rand, full bool) {
 	ports := interestingPorts(rp, r)
 	protos := []uint8{6, 17, 58, 1, 0, 132}
 	nIn := 0
+	pinged := map[int]bool{}
 	for i := 1; i <= 3; i++ {
 		S := ms.Nodes[i]
 		sess := S.Inst.StateV.GetSession(V.ID.IP)
 		for k := 0; k < 14; k++ {
+			if sess == nil || !sess.Encryption().IsSetUp() {
+				// keys were legitimately discarded by an earlier "no encryption keys" error ping: set up again
+				_, _ = S.Inst.RouterV.HelloPing.Send(V.ID.IP)
+				ms.Drain(vmesh.FIFO, 100)
+				sess = S.Inst.StateV.GetSession(V.ID.IP)
+				if sess == nil || !sess.Encryption().IsSetUp() {
+					res.Inconcl("sender %d cannot set up keys again", i)
+					return
+				}
+			}
 			proto := protos[r.IntN(len(protos))]
 			dport := ports[r.IntN(len(ports))]
 			if len(rp.services) > 0 && r.IntN(2) == 0 {
@@ -444,6 +482,59 @@ func runConfig(res *core.Result, pool *idPool, r *rand.Rand, full bool) {
 			nIn++
 			// let error pings etc. drain
 			ms.Drain(vmesh.FIFO, 20)
+			// A refused flow stays refused whatever authentic control messages the sender (or a third router)
+			// sends in between: once per sender, the error ping kinds that do not concern keys and a pong request are
+			// delivered, then the same 5-tuple is sent again.
+			if variant == "honest" && !allowed && !pinged[i] {
+				pinged[i] = true
+				T := ms.Nodes[1+i%3] // a third router
+				for _, snd := range []*vmesh.Node{S, T} {
+					ep := snd.Inst.RouterV.ErrorPing
+					_ = ep.SendUnreachable(V.ID.IP, S.ID.IP)
+					_ = ep.SendGeneric(V.ID.IP, "x")
+					_ = ep.SendAccessDenied(V.ID.IP, S.ID.IP, proto, dport)
+					_ = ep.SendRejected(V.ID.IP, S.ID.IP, proto, dport)
+					_, _, _ = snd.Inst.RouterV.PingPong.Send(V.ID.IP, false, 0)
+					ms.Drain(vmesh.FIFO, 100)
+				}
+				drainTun()
+				if len(ms.Panics) > 0 {
+					res.Violate("handler-panic", fmt.Sprintf("control pings after refused traffic: %v [%s]", ms.Panics[0], cfgDesc), wit(map[string]any{"variant": "after-control-pings"}))
+					return
+				}
+				// a "no encryption keys" error legitimately discards keys: set them up again if so
+				sess = S.Inst.StateV.GetSession(V.ID.IP)
+				if sess == nil || !sess.Encryption().IsSetUp() {
+					_, _ = S.Inst.RouterV.HelloPing.Send(V.ID.IP)
+					ms.Drain(vmesh.FIFO, 100)
+					sess = S.Inst.StateV.GetSession(V.ID.IP)
+				}
+				if sess == nil || !sess.Encryption().IsSetUp() {
+					res.Count("retry_skipped_no_keys", 1)
+					continue
+				}
+				f2, err := S.Inst.BuilderV.NewFrameV1(S.ID.IP, V.ID.IP, frame.NetworkTraffic, nil, pkt, nil)
+				if err == nil {
+					err = f2.Seal(sess)
+				}
+				if err != nil {
+					res.Inconcl("seal traffic: %v", err)
+					return
+				}
+				fd2, _ := f2.FrameDataWithMargins(0, 0)
+				data2 := append([]byte(nil), fd2...)
+				f2.ReturnToPool()
+				p2 := ms.Inject(i, 0, data2)
+				ms.Take(ms.Pending() - 1)
+				ms.Deliver(p2)
+				if got2 := drainTun(); len(got2) > 0 {
+					res.Violate("forbidden-packet-delivered:after-control-pings", desc+": refused at first, but handed to the local interface when sent again after authentic error pings (unreachable, generic, access-denied, rejected) and a pong request from the sender and a third router ["+cfgDesc+"]",
+						wit(map[string]any{"variant": "after-control-pings", "proto": proto, "port": dport}))
+					return
+				}
+				res.Count("refused_flows_retried_after_control_pings", 1)
+				ms.Drain(vmesh.FIFO, 20)
+			}
 		}
 	}
 	// A sender the victim knows but has no encryption keys with (node 4) fabricates traffic frames:
